@@ -123,6 +123,9 @@ class ClassV:
             return other in self.mro()
         if isinstance(other, type):
             return any(issubclass(b, other) for b in self.native_bases())
+        if isinstance(other, ExtType):
+            # an external base class (pyparsing.ParseBaseException ...): by name, along the interpreted bases
+            return any((isinstance(b, ExtType) and b.name == other.name) for c in self.mro() for b in c.bases)
         return False
 
     def __repr__(self):
